@@ -25,10 +25,12 @@ func init() {
 			"session indexes every section (shared with C12). NOT decided: that Unmarshal∘Marshal is the identity on lookups; equality of flattened and regenerated indexes.",
 		Assumptions: []string{"sort.Sort/sort.Slice sort by the given comparator", "binary.Write emits binary.Size(v) bytes for fixed-size v"},
 		Rules: []RuleDef{
-			{ID: "R11a", Floor: 8, Doc: "no order-sensitive effect inside a map range (index, internal/loader)", Run: ruleR11a},
+			{ID: "R11a", Floor: 5, Doc: "no order-sensitive effect inside a map range (index, internal/loader)", Run: ruleR11a},
 			{ID: "R11b", Floor: 1 + 1 + 4, Doc: "sort before compaction with the digest comparator; ascending key orders", Run: ruleR11b},
 			{ID: "R11c", Floor: 2 + 2, Doc: "codec registry agreement; WriteTo/ReadFrom prefix", Run: ruleR11c},
 			{ID: "R11d", Floor: 5, Doc: "byte-count bookkeeping of Marshal/WriteTo", Run: ruleR11d},
+			{ID: "R11f", Floor: 1, Doc: "Flatten hands every record of the session to the on-disk index (no record skipped)", Run: ruleR11f},
+			{ID: "R11g", Floor: 1, Doc: "the read-side bucket-width cap admits everything the default write-side CID limit admits", Run: ruleR11g},
 			{ID: "R11e", Floor: 1, Doc: "rescan indexes every section (= R12c)", Run: ruleR12c},
 		},
 	})
@@ -233,7 +235,49 @@ func ruleR11b(c *Ctx, r *Report) {
 		sorts := callsToFunc(load, "sort", "", "Sort")
 		writes := callsToFunc(load, pkgIndex, "digestRecord", "write")
 		bad := ""
-		if len(sorts) != 1 || len(writes) == 0 {
+		viaHelper := false
+		if len(sorts) == 1 && len(writes) == 0 {
+			// the compaction may have been extracted: a same-package helper that writes the
+			// elements of the slice it is handed, called with the sorted slice after the sort
+			sv := canon(stripIface(sorts[0].Common().Args[0]))
+			eachInstr(load, func(in ssa.Instruction) {
+				ci, ok := in.(*ssa.Call)
+				if !ok {
+					return
+				}
+				h := ci.Common().StaticCallee()
+				if h == nil || h.Blocks == nil || h.Pkg != load.Pkg {
+					return
+				}
+				hw := callsToFunc(h, pkgIndex, "digestRecord", "write")
+				if len(hw) == 0 {
+					return
+				}
+				for i, a := range ci.Call.Args {
+					if !sameValue(a, sv) || i >= len(h.Params) {
+						continue
+					}
+					okAll := true
+					for _, w := range hw {
+						u, isU := canon(w.Common().Args[0]).(*ssa.UnOp)
+						if !isU {
+							okAll = false
+							continue
+						}
+						ia, isIA := u.X.(*ssa.IndexAddr)
+						if !isIA || canon(ia.X) != ssa.Value(h.Params[i]) {
+							okAll = false
+						}
+					}
+					if okAll && sorts[0].Block().Dominates(ci.Block()) && (sorts[0].Block() != ci.Block() || instrIndex(sorts[0]) < instrIndex(ci)) {
+						viaHelper = true
+					}
+				}
+			})
+		}
+		if viaHelper {
+			// nothing more to check here
+		} else if len(sorts) != 1 || len(writes) == 0 {
 			bad = "the bucket is compacted without sort.Sort(recordSet(lst)) first: binary search over an unsorted bucket misses entries"
 		} else {
 			// sorted value is recordSet(lst) of the slice whose elements are written
@@ -284,6 +328,12 @@ func ruleR11b(c *Ctx, r *Report) {
 		}
 		key := "ascending-keys@" + fnKey(fn)
 		bad := "keys are not sorted with sort.Slice(keys, func(i, j) bool { return keys[i] < keys[j] })"
+		// the sorted keys may come from a same-package helper that is checked by this very rule
+		for _, hs := range []fnSpec{{pkgIndex, "MultihashIndexSorted", "sortedMultihashCodes"}} {
+			if hs.name != s.name && len(callsToFunc(fn, hs.pkg, hs.recv, hs.name)) > 0 && len(callsToFunc(fn, "sort", "", "Slice")) == 0 {
+				bad = ""
+			}
+		}
 		for _, sc := range callsToFunc(fn, "sort", "", "Slice") {
 			mc, ok := sc.Common().Args[1].(*ssa.MakeClosure)
 			if !ok {
@@ -577,8 +627,120 @@ func ruleR11d(c *Ctx, r *Report) {
 				}
 			}
 		}
+		// every return taken after a nested write has happened includes that write's count (also on error paths)
+		if bad == "" {
+			eachInstr(fn, func(in ssa.Instruction) {
+				ci, ok := in.(*ssa.Call)
+				if !ok {
+					return
+				}
+				f := calleeFunc(ci.Common())
+				if f == nil || (f.Name() != "Marshal" && f.Name() != "Write") || f.Pkg() == nil {
+					return
+				}
+				cnt := extractOf(ci, 0)
+				if cnt == nil {
+					return
+				}
+				for _, ret := range returnsOf(fn) {
+					if !instrReaches(in, ret) {
+						continue
+					}
+					_, adds, _ := countForm(ret.Results[0])
+					if adds[cnt] < 1 {
+						bad = fmt.Sprintf("the return at %s is taken after %s wrote %s bytes but its count does not include them: on an error in the body the reported count is short of the bytes written", c.Pos(ret.Pos()), funcKey(f), cnt.Name())
+					}
+				}
+			})
+		}
 		r.Check(bad == "", key, c.Pos(fn.Pos()), fmt.Sprintf("count = %d + every nested count once", wantK), bad)
 	}
 }
 
 var _ = constant.MakeInt64
+
+func ruleR11f(c *Ctx, r *Report) {
+	fn, err := c.Func(pkgIndex, "InsertionIndex", "Flatten")
+	if err != nil {
+		r.InfraFail("%v", err)
+		return
+	}
+	key := "flatten-copies-all@" + fnKey(fn)
+	if len(fn.AnonFuncs) != 1 {
+		r.Undec(key, c.Pos(fn.Pos()), "iterator closure not found")
+		return
+	}
+	it := fn.AnonFuncs[0]
+	// the store of the record into the output slice (or an append to it)
+	var sink ssa.Instruction
+	eachInstr(it, func(in ssa.Instruction) {
+		switch x := in.(type) {
+		case *ssa.Store:
+			if _, ok := x.Addr.(*ssa.IndexAddr); ok && isNamed(x.Val.Type(), pkgIndex, "Record") {
+				sink = in
+			}
+		case *ssa.Call:
+			if b, ok := x.Call.Value.(*ssa.Builtin); ok && b.Name() == "append" {
+				sink = in
+			}
+		}
+	})
+	bad := ""
+	if sink == nil {
+		bad = "the iterator does not copy the record"
+	} else {
+		cut := EdgeSet{}
+		for i := range sink.Block().Succs {
+			cut[Edge{sink.Block(), i}] = true
+		}
+		reachable := reach(it, nil, cut)
+		for _, ret := range returnsOf(it) {
+			if ret.Block() == sink.Block() {
+				continue
+			}
+			if reachable[ret.Block()] {
+				bad = "the flatten iterator can return without copying the current record (e.g. skipping 'repeats'): the stored index loses (multihash, offset) records the session wrote, so it differs from an index regenerated from the payload"
+			}
+		}
+		for _, ret := range returnsOf(it) {
+			if b, ok := constBool(ret.Results[0]); !ok || !b {
+				bad = "the flatten iterator can stop before the last record"
+			}
+		}
+	}
+	r.Check(bad == "", key, c.Pos(fn.Pos()), "every record visited is copied, iteration never stops early", bad)
+}
+
+func ruleR11g(c *Ctx, r *Report) {
+	fn, err := c.Func(pkgIndex, "singleWidthIndex", "checkUnmarshalLengths")
+	if err != nil {
+		r.InfraFail("%v", err)
+		return
+	}
+	key := "width-cap@" + fnKey(fn)
+	// DefaultMaxIndexCidSize of package v2
+	def := int64(2 << 10)
+	if k, ok := c.Pkgs[modV2].Types.Scope().Lookup("DefaultMaxIndexCidSize").(*types.Const); ok {
+		if v, ok := constant.Int64Val(k.Val()); ok {
+			def = v
+		}
+	}
+	widthP := fn.Params[1]
+	bad := "no upper bound on the bucket width found"
+	eachInstr(fn, func(in ssa.Instruction) {
+		b, ok := in.(*ssa.BinOp)
+		if !ok || (b.Op != token.GTR && b.Op != token.GEQ) || canon(b.X) != ssa.Value(widthP) {
+			return
+		}
+		k, isK := constInt(b.Y)
+		if !isK || k < 64 {
+			return
+		}
+		if k < def+8 {
+			bad = fmt.Sprintf("the read side rejects bucket widths above %d, but the write side indexes CIDs up to DefaultMaxIndexCidSize = %d bytes (width = digest length + 8): an index the library itself wrote can no longer be read back", k, def)
+		} else {
+			bad = ""
+		}
+	})
+	r.Check(bad == "", key, c.Pos(fn.Pos()), "width cap >= DefaultMaxIndexCidSize + 8", bad)
+}
